@@ -60,7 +60,7 @@ pub const VARIANTS: &[&str] = &["valencia", "VALENCIA", "1abc", "macos", "12345"
 pub const LANGS: &[&str] = &["en", "fr", "und", "UND", "Und", "EN", "zh", "ar", "sr", "abcde", "abcdefgh", "ABCDEF", "haw", "abcd", "e"];
 pub const SCRIPTS: &[&str] = &["Latn", "latn", "Cyrl", "Arab", "Hant", "Qqqq", "abc"];
 pub const REGIONS: &[&str] = &["US", "us", "GB", "TW", "001", "RS", "1", "USA"];
-pub const TLANGS: &[&str] = &["en", "en-US", "und", "fr-Latn-CA-valencia", "zh-hant", "de-1996-1901", "e", "en-"];
+pub const TLANGS: &[&str] = &["en", "en-US", "und", "fr-Latn-CA-valencia", "zh-hant", "de-1996-1901", "abcdefgh-Latn-001", "abcde", "haw-US", "undef-1abc", "e", "en-"];
 
 fn sel(v: &'static [&'static str]) -> SBoxedStrategy<String> {
     proptest::sample::select(v.to_vec()).prop_map(|s| s.to_string()).sboxed()
@@ -106,7 +106,7 @@ pub fn s_op() -> SBoxedStrategy<Op> {
     ]
     .sboxed();
     let c = prop_oneof![
-        2 => sel(TLANGS).prop_map(Op::SetTlang),
+        2 => sel_or(TLANGS, crate::gen::s_langid_bytes().prop_map(|b| String::from_utf8_lossy(&b).to_string()).sboxed()).prop_map(Op::SetTlang),
         1 => Just(Op::ClearTlang),
         4 => (sel_or(TKEYS, crate::gen::s_tkey()), vals()).prop_map(|(k, v)| Op::SetTfield(k, v)),
         3 => sel(TKEYS).prop_map(Op::RemoveTfield),
